@@ -76,7 +76,7 @@ def run(ctx):
     pa_l = prog.by_name.get('ImplicitDepLoader::PreallocateSpace') or []
     pa = pa_l[0] if pa_l else None
     for e in (pa.events('ret') if pa else []):
-        d = dstr(e.get('e'))
+        d = dstr(e.get('e')) + ' <- ' + dstr(deep_resolve(pa, e.get('e')))
         ctx.check('C10.P1', 'Edge::order_only_deps_' in d and 'count' in d, pa.name, 'PreallocateSpace:returned-position', pa.where(e),
                   'PreallocateSpace returns the first of the slots it made, in front of the order-only inputs: `%s`' % d[:90])
     ctx.check('C10.P1', nr >= 2, 'ImplicitDepLoader', 'reported-range:sites', 'src/graph.cc', '%d reported ranges examined' % nr)
